@@ -646,3 +646,27 @@ def long_cases(quick=True):
     out.append(('many-statements', 'select 1;' * (3000 if quick else 40000), None))
     out.append(('many-items', 'select ' + ', '.join('c%d' % i for i in range(400 if quick else 5000)) + ' from t', None))
     return out
+
+
+def threshold_cases(quick=True):
+    """Inputs beyond the size thresholds a `hardening` change is likely to introduce (nesting depth > 100, more than 10000 tokens
+    in one statement): [(kind, text, meta)].  All of them are handled correctly by the unchanged library."""
+    out = []
+    for n in ([101, 140] if quick else [101, 140, 220]):
+        out.append(('deep-paren-case', '(' * n + 'CASE WHEN a THEN b END' + ')' * n, {'depth': n}))
+        out.append(('deep-paren-if', '(' * n + 'IF a THEN b END IF' + ')' * n, {'depth': n}))
+        out.append(('deep-bracket', 'a' + '[a' * (n - 1) + '[(1)' + ']' * n, {'depth': n}))
+        q = 'select a.b c from t'
+        for i in range(n):
+            q = 'select * from (' + q + ') s%d' % i
+        out.append(('deep-subquery-alias', q, {'depth': n, 'ident': 'a.b c', 'alias': 'c', 'real': 'b', 'parent': 'a'}))
+        out.append(('deep-function', 'select ' + 'f(' * n + 'x, 1' + ')' * n + ' from t', {'depth': n}))
+    m = 3400 if quick else 9000
+    cols = ', '.join('c%d' % i for i in range(m))
+    out.append(('many-tokens-select', 'select ' + cols + ' from t where ( a = 1 ) order by b',
+                {'where': 'where ( a = 1 ) ', 'items': m}))
+    rows = ', '.join('(%d, %d)' % (i, i) for i in range(1400 if quick else 4000))
+    out.append(('many-tokens-cte-insert', 'with src as (select 1 from u) insert into t (id, v) values ' + rows, {'type': 'INSERT'}))
+    out.append(('many-tokens-in-list', 'update t set a = 1 where a in (' + ', '.join(map(str, range(3600 if quick else 9000))) +
+                ') and ( b = 2 ) returning a', {'type': 'UPDATE', 'where_prefix': 'where a in ('}))
+    return out
